@@ -11,6 +11,30 @@ SELF = P.Pat(lambda t: t == ('self',), 'self')
 WRAPPERS = ('_AudioReadingProxy', '_Recorder', '_Limiter', '_FixedSizeAudioReader', '_OverlapAudioReader')
 
 
+def effective_stores(cx, mod, c, mname):
+    """field -> values stored by the method `mname` that runs for class c (MRO-resolved, self-calls inlined with dynamic
+    dispatch on c, helpers known to the rules included); {} when it cannot be evaluated"""
+    from ..semantic import deep_leaves, Undecided
+    key = ('effstores', id(c), mname)
+    if key in cx._leaves:
+        return cx._leaves[key]
+    out = {}
+    r = cx.model.find_method(mod, c, mname)
+    if r is not None:
+        try:
+            for l in deep_leaves(cx, r[0], c, r[2], inline_super=False):
+                if l.outcome == 'raise':
+                    continue
+                for e in l.effects:
+                    if e[0] == 'store' and e[1][0] == 'attr' and e[1][1] == ('self',):
+                        if e[2] not in out.setdefault(e[1][2], []):
+                            out[e[1][2]].append(e[2])
+        except Undecided:
+            out = {}
+    cx._leaves[key] = out
+    return out
+
+
 def check(repo, rep):
     cx = Ctx(repo)
     rep.cx = cx
@@ -228,6 +252,10 @@ def check(repo, rep):
             nreset += 1
             init = [d['value'] for d in fdefs[f] if d['method'] == '__init__']
             rew = [d['value'] for d in fdefs[f] if d['method'] == 'rewind']
+            if not rew:
+                # the rewind that runs for this class may be inherited and reach the class's own code through a hook it calls
+                # (template method): its stores with self-calls inlined under dynamic dispatch
+                rew = effective_stores(cx, mod, c, 'rewind').get(f, [])
             ok = bool(init) and bool(rew) and all(r in init for r in rew)
             rep.ob('%s.%s (state consumed by read) is re-initialised by rewind to its construction value' % (cname, f), ok, W(own.get('rewind', c)), '%s.rewind:reset-%s' % (cname, f),
                    'construction value %s, rewind value %s' % ([show(x)[:50] for x in init], [show(x)[:50] for x in rew]), sample=dict(wrapper=cname, field=f, init=[show(x)[:40] for x in init], rewind=[show(x)[:40] for x in rew]))
